@@ -491,3 +491,42 @@ Proof.
   destruct (drain fuel high c out) as [[[r c'] out'] stopped].
   destruct Hd as (taken & E1 & E2 & _). exists taken. split; assumption.
 Qed.
+
+(* PROGRESS.  A channel event that finds the buffer at or below the mark hands over at least
+   the channel's oldest message: together with C18_next_poll_reports (a channel holding a
+   message is reported by the next poll while channels are polled), C18_throttled_has_data
+   and C18_resume_rearms (while they are not, there is data to write and the first tail at or
+   below the low-water mark polls them again) every accepted message moves towards the wire as
+   long as the transport goes on taking data *)
+Lemma drain_takes_first fuel high c out m rest :
+  k_mail c = m :: rest -> out <= high -> (length (k_mail c) < fuel)%nat ->
+  let '(_, c', out', _) := drain fuel high c out in
+  exists more, rest = more ++ k_mail c' /\ out' = out + m + sum more.
+Proof.
+  intros Hm Hle Hf. destruct fuel as [|f]; [lia|]. cbn [drain].
+  destruct (N.ltb_spec high out) as [H|_]; [lia|]. rewrite Hm.
+  set (c1 := {| k_mail := rest; k_tx := k_tx c;
+                k_ready := match rest with [] => negb (k_tx c) && k_ready c | _ => k_ready c end;
+                k_queued := k_queued c |}).
+  assert (Hf1 : (length (k_mail c1) < f)%nat) by (rewrite Hm in Hf; cbn in *; lia).
+  pose proof (@drain_spec f high c1 (out + m) Hf1) as Hd.
+  destruct (drain f high c1 (out + m)) as [[[r c'] out'] stopped].
+  destruct Hd as (taken & E1 & E2 & _). exists taken. cbn [k_mail c1] in E1. split; [exact E1|exact E2].
+Qed.
+
+Theorem event_progress w ch c m rest :
+  In ch (w_pending w) -> alookup ch (w_chans w) = Some c -> k_mail c = m :: rest ->
+  w_out w <= w_high w ->
+  exists c' more, alookup ch (w_chans (snd (wevent w ch))) = Some c' /\
+    rest = more ++ k_mail c' /\ w_out (snd (wevent w ch)) = w_out w + m + sum more.
+Proof.
+  intros Hin Hc Hm Hle. unfold wevent.
+  assert (He : existsb (N.eqb ch) (w_pending w) = true).
+  { apply existsb_exists. exists ch. split; [exact Hin|apply N.eqb_refl]. }
+  rewrite He. cbn [w_chans with_pending]. rewrite Hc.
+  pose proof (@drain_takes_first (S (S (length (k_mail c)))) (w_high w) c (w_out w) m rest Hm Hle ltac:(lia)) as Hd.
+  cbn [w_high w_out with_pending].
+  destruct (drain _ (w_high w) c (w_out w)) as [[[r c'] out'] stopped].
+  destruct Hd as (more & E1 & E2). exists c', more. cbn [snd].
+  destruct stopped; unf; (split; [apply alookup_insert_eq|split; [exact E1|exact E2]]).
+Qed.
